@@ -30,6 +30,11 @@ def run(ck: Check, only=None):
         for _ in range(1500 if quick else 20000):
             n = r.randint(8, 400 if r.random() < 0.2 else 40)
             rnd.append(b"".join(r.choice(big) for _ in range(n)))
+        # byte order marks (at offset 0 and elsewhere), alone and in front of every kind of content
+        for tail in (b"", b"x", b"\n", b"DDBEGIN\nx\nDDEND\n", b"'a'", b"<a b=c>", b"\xef\xbb\xbf", b"a;b"):
+            rnd.append(b"\xef\xbb\xbf" + tail)
+            rnd.append(tail + b"\xef\xbb\xbf" + tail)
+        rnd += [b"\xef\xbb\xbf" + x for x in rnd[:200:5]]
         rnd.append(b"DDBEGIN\nab\rDDEND\n")
         rnd.append(b"x DDBEGIN y\r\nab\xc2\x85DDEND z\r\ntail")
         gens.append(rnd)
@@ -48,6 +53,8 @@ def run(ck: Check, only=None):
                 if idx == 4000:
                     ck.sample({"atom": atom, "data": data.hex(), "impl": line})
     model = run_model(cases, shards=16)
+    from coqlit import xcheck
+    xcheck(ck, cases, model)
     for c, m, i in zip(cases, model, impl):
         if m != i:
             ck.mismatch(c.split()[1], c, m, i)
